@@ -68,6 +68,21 @@ def vp_good():
     return CameraViewPort(np.array([0, 0], dtype="<i4"), np.array([640, 480], dtype="<i4"))
 
 
+_FORM = [0]
+
+
+def geometry_call(klass, head, names, values):
+    """the same constructor call in one of three ARGUMENT FORMS, taken in turn: all geometry by keyword, all positional, the first
+    positional and the rest by keyword — how an argument is passed says nothing about whether it is acceptable"""
+    _FORM[0] += 1
+    form = _FORM[0] % 3
+    if form == 0:
+        return klass(*head, **dict(zip(names, values)))
+    if form == 1:
+        return klass(*head, *values)
+    return klass(*head, values[0], **dict(zip(names[1:], values[1:])))
+
+
 def seelab_args(**over):
     d = dict(rotation_matrix=good((3, 3), "<f8"), translation_vector=good((3,), "<f8"), focus=good((2,), "<f8"), optical_center=good((2,), "<f8"),
              radial_distortion=good((2,), "<f8"), decentering=good((2,), "<f8"), thin_prism=good((2,), "<f8"), view_port=vp_good())
@@ -86,11 +101,12 @@ def build_param(param, arg):
     if cls in ("data3d", "force3d"):
         kw = dict(volume=std("vol"), rotationMatrix=std("rot"), translationVector=std("tr"))
         kw[{"volume": "volume", "rot": "rotationMatrix", "transl": "translationVector"}[field]] = arg
-        return (Data3D if cls == "data3d" else ForceTorque3D)(100, 2, **kw)
+        return geometry_call(Data3D if cls == "data3d" else ForceTorque3D, (100, 2), list(kw), list(kw.values()))
     if cls == "calib":
         kw = dict(calibration_volume_size=std("vol"), calibration_volume_rotation_matrix=std("rot"), calibration_volume_translation_vector=std("tr"))
         kw[{"volume": "calibration_volume_size", "rot": "calibration_volume_rotation_matrix", "transl": "calibration_volume_translation_vector"}[field]] = arg
-        return CalibrationDataBlock(DistorsionModel(0), cameras_calibration_map=np.array([], dtype="<i2"), cam_data=[], **kw)
+        names = list(kw) + ["cameras_calibration_map", "cam_data"]
+        return geometry_call(CalibrationDataBlock, (DistorsionModel(0),), names, list(kw.values()) + [np.array([], dtype="<i2"), []])
     if cls == "seelab":
         cam = SeelabCameraData(**seelab_args(**{field: arg}))
         return CalibrationDataBlock(DistorsionModel(0), std("vol"), std("rot"), std("tr"), np.array([3], dtype="<i2"), [cam], CalibrationDataBlockFormat.Seelab1)
@@ -151,7 +167,7 @@ def build_joint(cls, shapes):
     from basictdf.tdfForce3D import ForceTorque3D
     if cls in ("data3d", "force3d"):
         v, r, t = (good(sh) for sh in shapes)
-        return (Data3D if cls == "data3d" else ForceTorque3D)(100, 2, volume=v, rotationMatrix=r, translationVector=t)
+        return geometry_call(Data3D if cls == "data3d" else ForceTorque3D, (100, 2), ["volume", "rotationMatrix", "translationVector"], [v, r, t])
     if cls == "calib":
         v, r, t = (good(sh) for sh in shapes)
         return CalibrationDataBlock(DistorsionModel(0), v, r, t, cameras_calibration_map=np.array([], dtype="<i2"), cam_data=[])
